@@ -30,6 +30,7 @@ const (
 	emReturnFalse                 // return false
 	emReturnIdent                 // return <ident named name> as first result
 	emAppendIdent                 // append(xs, <ident named name>)
+	emAssignIdent                 // <ident named name> = e   [argIs: text of e]
 )
 
 type emitSel struct {
@@ -197,6 +198,16 @@ func findEmissions(fn *Func, sel emitSel) []ast.Node {
 							}
 						}
 						out = append(out, rs)
+					}
+				}
+			}
+		case emAssignIdent:
+			if as, ok := n.(*ast.AssignStmt); ok && len(as.Lhs) == len(as.Rhs) {
+				for i, l := range as.Lhs {
+					if id, ok := ast.Unparen(l).(*ast.Ident); ok && id.Name == sel.name {
+						if sel.argIs == "" || exprStr(as.Rhs[i]) == sel.argIs {
+							out = append(out, as)
+						}
 					}
 				}
 			}
